@@ -343,7 +343,9 @@ MANIFEST = {
                   "scanner does not classify as one of the five families are discarded and counted.  For every remaining case the "
                   "real CLI must exit non-zero, must not open the page for writing (stale page byte-identical, or absent), and "
                   "must not print a page for the file; the fault-free configuration must succeed.  An injected EIO/EACCES when the input "
-                  "file is opened carries the same obligation.",
+                  "file is opened, or while it is read (read() failing at once or after a prefix), carries the same obligation.  Worlds vary the "
+                  "include_undocumented_* profile (modules without any doccomment included) and keep a stale page whose timestamp is "
+                  "newer than the faulty source (clock skew / restored file).",
     "level_note": "trusted: the 100-line scanner written from cmake-language(7) (validated on ~3000 generated and all installed "
                   "CMake modules: none flagged), the token map of the generator; small modules (<= 3 commands in quick)",
 }
